@@ -2,5 +2,5 @@ INIT Init
 NEXT Next
 INVARIANT Inv
 INVARIANT Zeroth
-PROPERTY Mono
+INVARIANT Mono
 POSTCONDITION Done
